@@ -133,7 +133,12 @@ def build_kwargs(recipe, workdir=None):
     else:
         dfs = [make_df(s["df"]) for s in secs]
         kw["df"] = list(dfs)
-        kw["rtf_body"] = [rtf.RTFBody(**_kw(s.get("body", {}))) for s in secs]
+        if recipe.get("share_body"):
+            # one RTFBody OBJECT used for every section (the sections' body specs are equal)
+            shared_body = rtf.RTFBody(**_kw(secs[0].get("body", {})))
+            kw["rtf_body"] = [shared_body for _ in secs]
+        else:
+            kw["rtf_body"] = [rtf.RTFBody(**_kw(s.get("body", {}))) for s in secs]
         layout = recipe.get("header_layout", "nested")
         if layout == "nested":
             hl = []
